@@ -850,7 +850,7 @@ func (t *State) ClearCache() {
 // utxo总量, meta的临时值, utxo/余额/xmodel cache. 全部恢复成和磁盘一致, 调用方需要持有utxo.Mutex写锁
 func (t *State) resetMemStateOnFail() {
 	t.ClearCache()
-	t.utxo.ReloadUtxoTotal()
+	t.utxo.RollbackUtxoTotal()
 	t.meta.MutexMeta.Lock()
 	t.meta.MetaTmp = proto.Clone(t.meta.Meta).(*pb.UtxoMeta)
 	t.meta.MutexMeta.Unlock()
@@ -1087,6 +1087,7 @@ func (t *State) updateLatestBlockid(newBlockid []byte, batch kvdb.Batch, reason 
 		return writeErr
 	}
 	t.latestBlockid = newBlockid
+	t.utxo.CommitUtxoTotal()
 	t.heightNotifier.UpdateHeight(blk.GetHeight())
 	// batch已经落盘, xmodel里记录的本batch内未提交版本已失效, 否则后续未确认交易校验读集合时会读到旧版本
 	t.xmodel.CleanCache()
